@@ -1387,15 +1387,8 @@ pub fn evaluate(sc: &Scenario, scratch: &Scratch, clock: &Rc<VClock>) -> Eval {
             ));
         }
         if let Some((class, detail)) = v {
-            if !ev.error_seen && !class.starts_with("panic") && !class.starts_with("no-return") {
-                // error-free import histories are also in C18's domain (run-once, resolution,
-                // binding, exports): they are violations too, but a disagreement on the very
-                // first error-free operation is far more likely a modelling problem
-                if i == 0 {
-                    ev.harness_error = Some(format!("mismatch on the first operation without any error: {class}: {detail}"));
-                    return ev;
-                }
-            }
+            // error-free import histories are in C18's domain too (run-once, resolution, binding,
+            // exports): every disagreement with the contract model is reported
             ev.violation = Some(Violation {
                 class,
                 detail,
